@@ -26,30 +26,30 @@ theorem getName_absent (db : Db) (nm : String) (h : mapLookup db.namesMap (some 
 
 /-! ## the invariant -/
 
-/-- Representation invariant.  Besides the three clauses about lengths and the canonical index it
-carries two clauses that are needed for it to be preserved by `Db.add`: the property keys are
-duplicate free (otherwise `colSet` extends only the first of two equally named columns), and a
-database whose matrix has no rows has no property columns (otherwise the first batch, which
-dictates the expected columns of an empty database, leaves the old columns at length 0; see
-`inv_add_needs_noRows_noProps`). -/
+/-- Representation invariant: names, property columns and rows have one common length, the
+separately maintained name index is the canonical one, and the property keys are duplicate free
+(otherwise `colSet` extends only the first of two equally named columns).  A database without rows
+may carry property columns (of length 0): `set_prop` / `update_props` accept them, and since the fix
+recorded in `known_findings.json` (C05/C16, "columns declared on an empty database") an addition
+takes its expected columns from them, so the invariant is preserved without the former clause
+"no rows ⇒ no columns" (see `add_respects_declared_columns`). -/
 def _root_.E3fpVerif.Db.Inv (db : Db) : Prop :=
   match db.array with
   | some a =>
     db.fpNames.length = a.length ∧
     (∀ c ∈ db.props, c.2.length = a.length) ∧
     db.namesMap = updateNamesMap [] db.fpNames 0 ∧
-    (db.props.map Prod.fst).Nodup ∧
-    (a = [] → db.props = [])
-  | none => db.fpNames = [] ∧ db.namesMap = [] ∧ db.props = []
+    (db.props.map Prod.fst).Nodup
+  | none => db.fpNames = [] ∧ db.namesMap = [] ∧ (∀ c ∈ db.props, c.2.length = 0) ∧ (db.props.map Prod.fst).Nodup
 
 theorem inv_some {db : Db} {a : List Row} (h : db.array = some a) :
     db.Inv ↔ db.fpNames.length = a.length ∧ (∀ c ∈ db.props, c.2.length = a.length) ∧
-      db.namesMap = updateNamesMap [] db.fpNames 0 ∧ (db.props.map Prod.fst).Nodup ∧
-      (a = [] → db.props = []) := by
+      db.namesMap = updateNamesMap [] db.fpNames 0 ∧ (db.props.map Prod.fst).Nodup := by
   unfold Db.Inv; rw [h]
 
 theorem inv_none {db : Db} (h : db.array = none) :
-    db.Inv ↔ db.fpNames = [] ∧ db.namesMap = [] ∧ db.props = [] := by
+    db.Inv ↔ db.fpNames = [] ∧ db.namesMap = [] ∧ (∀ c ∈ db.props, c.2.length = 0) ∧
+      (db.props.map Prod.fst).Nodup := by
   unfold Db.Inv; rw [h]
 
 /-- the index part of the invariant holds in both cases -/
@@ -69,13 +69,30 @@ theorem _root_.E3fpVerif.Db.Inv.names_length {db : Db} (h : db.Inv) : db.fpNames
 /-- every property column has one cell per row -/
 theorem _root_.E3fpVerif.Db.Inv.col_length {db : Db} (h : db.Inv) : ∀ c ∈ db.props, c.2.length = db.fpNum := by
   cases ha : db.array with
-  | none => simp [((inv_none ha).1 h).2.2]
+  | none => simpa [Db.fpNum, ha] using ((inv_none ha).1 h).2.2.1
   | some a => simpa [Db.fpNum, ha] using ((inv_some ha).1 h).2.1
 
 theorem _root_.E3fpVerif.Db.Inv.keys_nodup {db : Db} (h : db.Inv) : (db.props.map Prod.fst).Nodup := by
   cases ha : db.array with
-  | none => simp [((inv_none ha).1 h).2.2]
-  | some a => exact ((inv_some ha).1 h).2.2.2.1
+  | none => exact ((inv_none ha).1 h).2.2.2
+  | some a => exact ((inv_some ha).1 h).2.2.2
+
+/-- the invariant in one uniform statement (`fpNum` is 0 for a database without matrix) -/
+theorem inv_iff (db : Db) :
+    db.Inv ↔ db.fpNames.length = db.fpNum ∧ (∀ c ∈ db.props, c.2.length = db.fpNum) ∧
+      db.namesMap = updateNamesMap [] db.fpNames 0 ∧ (db.props.map Prod.fst).Nodup := by
+  constructor
+  · intro h; exact ⟨h.names_length, h.col_length, h.canonical, h.keys_nodup⟩
+  · rintro ⟨h1, h2, h3, h4⟩
+    cases ha : db.array with
+    | none =>
+      have h0 : db.fpNames = [] := by simpa [Db.fpNum, ha] using h1
+      rw [inv_none ha]
+      refine ⟨h0, ?_, by simpa [Db.fpNum, ha] using h2, h4⟩
+      rw [h3, h0]; rfl
+    | some a =>
+      rw [inv_some ha]
+      exact ⟨by simpa [Db.fpNum, ha] using h1, by simpa [Db.fpNum, ha] using h2, h3, h4⟩
 
 theorem inv_new (k : Kind) (l : Int) (n : Option String) : (Db.new k l n).Inv := by
   simp [Db.Inv, Db.new]
@@ -114,68 +131,62 @@ private theorem propsFold_nil (keys : List String) (g : String → List PVal) (n
       ∀ c ∈ keys.foldl (fun acc k => colSet acc k (g k)) ([] : Cols), c.2.length = n :=
   foldl_colSet_keys_forall (fun v => v.length = n) g keys (fun k _ => hg k) [] (by simp) (by simp)
 
+/-- the property columns after an accepted addition, in both regimes: a database that has rows or
+declared columns extends each of its columns, in order; a database with neither takes the columns of
+the batch's first fingerprint -/
+theorem addOk_props (db : Db) (fps : List FpIn) (h : db.Inv) :
+    (db.addOk fps).props =
+      if db.fpNum > 0 ∨ db.props ≠ [] then
+        db.props.map (fun c => (c.1, c.2 ++ fps.map (fun f => (propLookup f.props c.1).getD (.int 0))))
+      else
+        ((fps.head?.map (fun f => f.props.map Prod.fst)).getD []).foldl
+          (fun acc k => colSet acc k (fps.map (fun f => (propLookup f.props k).getD (.int 0)))) [] := by
+  by_cases hc : db.fpNum > 0 ∨ db.props ≠ []
+  · simp only [Db.addOk, Db.expectedProps, hc, if_true]
+    rw [foldl_colSet_self _ db.props h.keys_nodup]
+    apply List.map_congr_left
+    intro c hc'
+    simp [colLookup_of_mem db.props c.1 c.2 h.keys_nodup hc']
+  · have hp : db.props = [] := by
+      cases hpp : db.props with
+      | nil => rfl
+      | cons c r => exact absurd (Or.inr (by simp [hpp])) hc
+    have hc' : ¬ (db.fpNum > 0 ∨ ([] : Cols) ≠ []) := by rw [hp] at hc; exact hc
+    simp only [Db.addOk, Db.expectedProps, hp, colLookup, Option.getD_none, List.nil_append]
+    rw [if_neg hc', if_neg hc']
+
 /-- the state after an accepted addition satisfies the invariant (no hypothesis on the batch is
 needed: the new cells are padded with a default, so the columns grow by `fps.length` anyway) -/
 theorem inv_addOk (db : Db) (fps : List FpIn) (h : db.Inv) : (db.addOk fps).Inv := by
-  obtain ⟨ft, lv, nm, arr, bits, names, nmap, props⟩ := db
-  cases arr with
-  | none =>
-    obtain ⟨h1, h2, h3⟩ := (inv_none rfl).1 h
-    simp only at h1 h2 h3
-    subst h1 h2 h3
-    rw [inv_some (a := fps.map (fun f => fpRow ft f.fp)) (by simp [Db.addOk])]
-    simp only [Db.addOk, Db.expectedProps, Db.fpNum, Nat.lt_irrefl, if_false, List.nil_append,
-      List.length_map, gt_iff_lt, colLookup, Option.getD_none]
-    have hp := propsFold_nil ((fps.head?.map (fun f => f.props.map Prod.fst)).getD [])
-      (fun k => fps.map (fun f => (propLookup f.props k).getD (.int 0))) fps.length (by simp)
-    refine ⟨trivial, hp.2, trivial, hp.1, ?_⟩
-    intro he
-    have : fps = [] := by simpa using he
-    subst this; rfl
-  | some a =>
-    obtain ⟨h1, h2, h3, h4, h5⟩ := (inv_some rfl).1 h
-    simp only at h1 h2 h3 h4 h5
-    rw [inv_some (a := a ++ fps.map (fun f => fpRow ft f.fp)) (by simp [Db.addOk])]
-    simp only [Db.addOk, Db.fpNum, List.length_append, List.length_map]
-    refine ⟨by omega, ?_, ?_, ?_, ?_⟩
-    · -- column lengths
-      by_cases ha : a.length > 0
-      · simp only [Db.expectedProps, Db.fpNum, ha, if_true]
-        rw [foldl_colSet_self _ props h4]
-        intro c hc
-        obtain ⟨c0, hc0, rfl⟩ := List.mem_map.1 hc
-        obtain ⟨v, hv1, hv2⟩ := colLookup_of_mem_keys props c0.1 (List.mem_map.2 ⟨c0, hc0, rfl⟩)
-        simp [hv1, h2 _ hv2]
-      · have ha0 : a = [] := by cases a <;> simp_all
-        subst ha0
-        have hp0 := h5 rfl
-        subst hp0
-        simp only [Db.expectedProps, Db.fpNum, List.length_nil, Nat.lt_irrefl, gt_iff_lt, if_false,
-          colLookup, Option.getD_none, List.nil_append]
-        have hp := propsFold_nil ((fps.head?.map (fun f => f.props.map Prod.fst)).getD [])
-          (fun k => fps.map (fun f => (propLookup f.props k).getD (.int 0))) fps.length (by simp)
-        simpa using hp.2
-    · -- canonical index
-      rw [h3, ← h1]; exact E3fpVerif.updateNamesMap_append names _
-    · -- duplicate-free keys
-      by_cases ha : a.length > 0
-      · simp only [Db.expectedProps, Db.fpNum, ha, if_true]
-        rw [foldl_colSet_self _ props h4]
-        simpa [List.map_map, Function.comp_def] using h4
-      · have ha0 : a = [] := by cases a <;> simp_all
-        subst ha0
-        have hp0 := h5 rfl
-        subst hp0
-        simp only [Db.expectedProps, Db.fpNum, List.length_nil, Nat.lt_irrefl, gt_iff_lt, if_false,
-          colLookup, Option.getD_none, List.nil_append]
-        exact (propsFold_nil _ (fun k => fps.map (fun f => (propLookup f.props k).getD (.int 0)))
-          fps.length (by simp)).1
-    · -- no rows, no columns
-      intro he
-      have hea : a = [] := (List.append_eq_nil_iff.1 he).1
-      have hef : fps = [] := by simpa using (List.append_eq_nil_iff.1 he).2
-      subst hea hef
-      simp [Db.expectedProps, Db.fpNum, h5 rfl]
+  have hn := h.names_length
+  have hcl := h.col_length
+  have hnum : (db.addOk fps).fpNum = db.fpNum + fps.length := by
+    cases ha : db.array <;> simp [Db.addOk, Db.fpNum, ha]
+  rw [inv_iff]
+  refine ⟨?_, ?_, ?_, ?_⟩
+  · rw [hnum]; simp [Db.addOk, hn]
+  · rw [hnum, addOk_props db fps h]
+    by_cases hc : db.fpNum > 0 ∨ db.props ≠ []
+    · rw [if_pos hc]
+      intro c hc'
+      obtain ⟨c0, hc0, rfl⟩ := List.mem_map.1 hc'
+      simp [hcl c0 hc0]
+    · have h0 : db.fpNum = 0 := by
+        have : ¬ db.fpNum > 0 := fun hh => hc (Or.inl hh)
+        omega
+      rw [if_neg hc, h0, Nat.zero_add]
+      exact (propsFold_nil _ (fun k => fps.map (fun f => (propLookup f.props k).getD (.int 0)))
+        fps.length (by simp)).2
+  · have : (db.addOk fps).namesMap = updateNamesMap db.namesMap (fps.map (·.name)) db.fpNum := rfl
+    rw [this, h.canonical, ← hn]
+    exact E3fpVerif.updateNamesMap_append db.fpNames _
+  · rw [addOk_props db fps h]
+    by_cases hc : db.fpNum > 0 ∨ db.props ≠ []
+    · rw [if_pos hc]
+      simpa [List.map_map, Function.comp_def] using h.keys_nodup
+    · rw [if_neg hc]
+      exact (propsFold_nil _ (fun k => fps.map (fun f => (propLookup f.props k).getD (.int 0)))
+        fps.length (by simp)).1
 
 /-- **an accepted addition preserves the invariant** -/
 theorem inv_add (db : Db) (fps : List FpIn) (h : db.Inv) (hok : (db.add fps).2 = none) :
@@ -227,12 +238,17 @@ theorem abs_add_props (db : Db) (fps : List FpIn) (h : db.Inv) (hok : (db.add fp
     (hpos : db.fpNum > 0) :
     (db.add fps).1.props =
       db.props.map (fun c => (c.1, c.2 ++ fps.map (fun f => (propLookup f.props c.1).getD (.int 0)))) := by
-  rw [add_ok_eq db fps hok]
-  simp only [Db.addOk, Db.expectedProps, hpos, if_true]
-  rw [foldl_colSet_self _ db.props h.keys_nodup]
-  apply List.map_congr_left
-  intro c hc
-  simp [colLookup_of_mem db.props c.1 c.2 h.keys_nodup hc]
+  rw [add_ok_eq db fps hok, addOk_props db fps h]
+  simp [hpos]
+
+/-- the same for a database without rows on which columns were declared (`set_prop` / `update_props`
+with empty arrays): the declared columns are the expected ones and each receives the batch's values -/
+theorem abs_add_props_declared (db : Db) (fps : List FpIn) (h : db.Inv) (hok : (db.add fps).2 = none)
+    (hdecl : db.props ≠ []) :
+    (db.add fps).1.props =
+      db.props.map (fun c => (c.1, c.2 ++ fps.map (fun f => (propLookup f.props c.1).getD (.int 0)))) := by
+  rw [add_ok_eq db fps hok, addOk_props db fps h]
+  simp [hdecl]
 
 /-- **faithfulness towards the rows already stored**: an accepted addition changes nothing that
 `db[i]` returns for an old row `i` — content, name and property values -/
@@ -246,7 +262,7 @@ theorem add_preserves_old_rows (db : Db) (fps : List FpIn) (h : db.Inv) (hok : (
   cases ha : db.array with
   | none => simp [Db.fpNum, ha] at hi
   | some a =>
-    obtain ⟨h1, h2, _, _, _⟩ := (inv_some ha).1 h
+    obtain ⟨h1, h2, _, _⟩ := (inv_some ha).1 h
     have hia : i < a.length := by simpa [Db.fpNum, ha] using hi
     unfold Db.fprintAt
     rw [ha', ha, ht', hl', hb', hn', hp]
@@ -335,27 +351,24 @@ theorem getIndex_out_of_range (db : Db) (i : Int) (h : i ≥ db.fpNum ∨ i < -(
 
 /-! ## derived databases satisfy the invariant -/
 
-/-- `from_array` establishes the canonical index by construction; with as many names as rows (and no
-property columns for an empty matrix) the result satisfies the invariant -/
+/-- `from_array` establishes the canonical index by construction; with as many names as rows the
+result satisfies the invariant -/
 theorem fromArray_inv (rows : List Row) (bits : Nat) (names : List (Option String)) (k : Kind) (level : Int)
-    (name : Option String) (props : Cols) (hl : names.length = rows.length) (he : rows = [] → props = [])
+    (name : Option String) (props : Cols) (hl : names.length = rows.length)
     (h : (Db.fromArray rows bits names k level name props).2 = none) :
     (Db.fromArray rows bits names k level name props).1.Inv := by
   have hc := (fromArray_ok_iff rows bits names k level name props).1 h
   rw [fromArray_ok rows bits names k level name props hc]
   have hp := foldl_colSet_pairs_forall (fun v => v.length = names.length) props hc [] (by simp) (by simp)
   rw [inv_some (a := rows.map (fun r => r.map (fun p => (p.1, castVal k p.2)))) rfl]
-  refine ⟨by simpa using hl, ?_, rfl, hp.1, ?_⟩
-  · intro c hc'; rw [List.length_map, ← hl]; exact hp.2 c hc'
-  · intro hr
-    have : rows = [] := by simpa using hr
-    rw [he this]; rfl
+  refine ⟨by simpa using hl, ?_, rfl, hp.1⟩
+  intro c hc'; rw [List.length_map, ← hl]; exact hp.2 c hc'
 
 theorem fromArray_inv' {rows : List Row} {bits : Nat} {names : List (Option String)} {k : Kind} {level : Int}
     {name : Option String} {props : Cols} {d : Db}
     (h : Db.fromArray rows bits names k level name props = (d, none))
-    (hl : names.length = rows.length) (he : rows = [] → props = []) : d.Inv := by
-  have := fromArray_inv rows bits names k level name props hl he (by rw [h])
+    (hl : names.length = rows.length) : d.Inv := by
+  have := fromArray_inv rows bits names k level name props hl (by rw [h])
   rw [h] at this; exact this
 
 /-- `get_subset` builds a database satisfying the invariant (whatever the source) -/
@@ -367,14 +380,10 @@ theorem subset_inv (db : Db) (names : List String) (newName : Option String) (d 
   · simp only at h
     split at h
     · cases h
-    · rename_i hne
-      split at h
+    · split at h
       · rename_i d' heq
         cases h
-        refine fromArray_inv' heq (by simp) ?_
-        intro hr
-        rw [List.map_eq_nil_iff.1 hr] at hne
-        simp at hne
+        exact fromArray_inv' heq (by simp)
       · cases h
 
 /-- `as_type` (and `copy`) builds a database satisfying the invariant -/
@@ -383,11 +392,11 @@ theorem asType_inv (db : Db) (k : Kind) (d : Db) (hi : db.Inv) (h : db.asType k 
   split at h
   · cases h
   · rename_i a ha
-    obtain ⟨h1, _, _, _, h5⟩ := (inv_some ha).1 hi
+    obtain ⟨h1, _, _, _⟩ := (inv_some ha).1 hi
     split at h
     · rename_i d' heq
       cases h
-      exact fromArray_inv' heq h1 h5
+      exact fromArray_inv' heq h1
     · cases h
 
 /-- `fold` builds a database satisfying the invariant -/
@@ -397,7 +406,7 @@ theorem fold_inv (db : Db) (bits : Nat) (k : Option Kind) (newName : Option Stri
   split at h
   · cases h
   · rename_i a ha
-    obtain ⟨h1, _, _, _, h5⟩ := (inv_some ha).1 hi
+    obtain ⟨h1, _, _, _⟩ := (inv_some ha).1 hi
     split at h
     · cases h
     · split at h
@@ -406,8 +415,41 @@ theorem fold_inv (db : Db) (bits : Nat) (k : Option Kind) (newName : Option Stri
         split at h
         · rename_i d' heq
           cases h
-          exact fromArray_inv' heq (by simpa using h1) (fun hr => h5 (List.map_eq_nil_iff.1 hr))
+          exact fromArray_inv' heq (by simpa using h1)
         · cases h
+
+/-! ## property updates preserve the invariant (also on a database without rows) -/
+
+theorem setProp_inv (db : Db) (k : String) (v : List PVal) (h : db.Inv) : (db.setProp k v).1.Inv := by
+  unfold Db.setProp
+  by_cases hl : v.length ≠ db.fpNames.length
+  · simpa [hl] using h
+  · have hl' : v.length = db.fpNum := by rw [← h.names_length]; exact Decidable.not_not.1 hl
+    simp only [hl, if_false]
+    rw [inv_iff]
+    refine ⟨h.names_length, ?_, h.canonical, colSet_nodup db.props k v h.keys_nodup⟩
+    exact colSet_forall (fun w => w.length = db.fpNum) db.props k v h.col_length hl'
+
+theorem updateProps_inv (db : Db) (ps : Cols) (h : db.Inv) : (db.updateProps ps).1.Inv := by
+  unfold Db.updateProps
+  by_cases hb : db.badCols ps = true
+  · simpa [hb] using h
+  · simp only [hb]
+    have hall : ∀ c ∈ ps, c.2.length = db.fpNames.length := by
+      intro c hc
+      have : db.badCols ps = false := by simpa using hb
+      simp only [Db.badCols, List.any_eq_false] at this
+      simpa using this c hc
+    clear hb
+    induction ps generalizing db with
+    | nil => simpa using h
+    | cons c rest ih =>
+      simp only [List.foldl_cons]
+      have hc : c.2.length = db.fpNames.length := hall c (by simp)
+      have h' : ({ db with props := colSet db.props c.1 c.2 } : Db).Inv := by
+        have := setProp_inv db c.1 c.2 h
+        simpa [Db.setProp, hc] using this
+      exact ih _ h' (fun c' hc' => hall c' (by simp [hc']))
 
 /-! ## non-vacuity -/
 
@@ -466,14 +508,19 @@ example : ∃ d, db1.fold 4 none none = .ok d := by
   rw [fromArray_ok _ _ _ _ _ _ _ hl]
   exact ⟨_, rfl⟩
 
-/-- The clause "no rows, no property columns" of the invariant cannot be dropped: a database with
-an empty matrix and a zero-length column `"k"` satisfies all the other clauses, accepts a batch
-that does not provide `"k"` (an empty database takes its expected columns from the batch), and is
-left with a column shorter than its matrix. -/
-theorem inv_add_needs_noRows_noProps :
-    let db : Db := { Db.new .bit 0 none with array := some [], props := [("k", [])] }
-    let fps : List FpIn := [⟨f1, some "a", []⟩]
-    (db.add fps).2 = none ∧ (db.add fps).1.fpNum = 1 ∧ (db.add fps).1.props = [("k", [])] := by decide
+/-- Columns declared on a database that has no rows yet are respected by the first addition (the
+repaired behaviour; before the repair an empty database took its expected columns from the batch, the
+batch below was accepted and column `"k"` stayed at length 0 beside one row): a batch that does not
+provide `"k"` is refused and the database is unchanged; a batch that provides it is accepted and the
+column is aligned. -/
+theorem add_respects_declared_columns :
+    let db : Db := ((Db.new .bit 0 none).setProp "k" []).1
+    db.Inv ∧ db.props = [("k", [])] ∧
+    db.add [⟨f1, some "a", []⟩] = (db, some .key) ∧
+    (db.add [⟨f1, some "a", [("k", .int 7)]⟩]).2 = none ∧
+    (db.add [⟨f1, some "a", [("k", .int 7)]⟩]).1.props = [("k", [.int 7])] ∧
+    (db.add [⟨f1, some "a", [("k", .int 7)]⟩]).1.fpNum = 1 := by
+  refine ⟨setProp_inv _ _ _ (inv_new _ _ _), by decide, by decide, by decide, by decide, by decide⟩
 
 end Examples
 
